@@ -40,6 +40,8 @@ def one(rec, hub, tier, seed, letters, pat, pi, what, ai, assign):
         drv.do_reads(hub, U, letters, assign, rng, "tagged")
     elif what == "write":
         drv.do_writes(hub, U, letters, letters, assign, rng, "dyadic")
+        if ai % 6 == 1:
+            drv.do_writes(hub, U, letters, letters, assign, rng, "wide")  # sources whose cells lie many orders of magnitude apart
     elif what == "misc":
         sub = letters[: ai % (len(letters) + 1)]
         drv.do_errors(hub, U, sub, rng)
